@@ -307,11 +307,21 @@ func mapOpsToScript(mk mapKinds, ops []MapOp) string { return mapOpsToScriptLit(
 func mapOpsToScriptLit(mk mapKinds, ops []MapOp, lit int) string {
 	var b strings.Builder
 	b.WriteString("package main\n\nfunc Main() {\n")
+	// lit < 0: the variable starts as a nil map (reading, len, range and delete are defined on it; it is made just before
+	// the first assignment to an entry)
+	nilStart := lit < 0
+	if nilStart {
+		lit = 0
+	}
 	var ents []string
 	for _, op := range ops[:lit] {
 		ents = append(ents, mk.keyLit(op.K)+": "+mk.valLit(op.V))
 	}
-	fmt.Fprintf(&b, "\tm := map[%s]%s{%s}\n", mk.keyType(), mk.valType(), strings.Join(ents, ", "))
+	if nilStart {
+		fmt.Fprintf(&b, "\tvar m map[%s]%s\n", mk.keyType(), mk.valType())
+	} else {
+		fmt.Fprintf(&b, "\tm := map[%s]%s{%s}\n", mk.keyType(), mk.valType(), strings.Join(ents, ", "))
+	}
 	for _, op := range ops[:lit] {
 		fmt.Fprintf(&b, "\tprintln(\"E\", \"set\", %s, %s)\n", mk.keyLit(op.K), mk.valLit(op.V))
 	}
@@ -333,6 +343,9 @@ func mapOpsToScriptLit(mk mapKinds, ops []MapOp, lit int) string {
 			}
 			switch op.Op {
 			case "set":
+				if nilStart {
+					fmt.Fprintf(&b, "%sif m == nil {\n%s\tm = make(map[%s]%s)\n%s}\n", pre, pre, mk.keyType(), mk.valType(), pre)
+				}
 				fmt.Fprintf(&b, "%sm[%s] = %s\n", pre, key, mk.valLit(op.V))
 				fmt.Fprintf(&b, "%sprintln(\"E\", \"set\", %s, %s)\n", pre, key, mk.valLit(op.V))
 			case "del":
@@ -602,11 +615,26 @@ func runMapHistory(source string, mk mapKinds, nk int, ops []MapOp, lit int) (*m
 		func() {
 			defer func() { perr = recover() }()
 			var entries []goat.Value
-			for _, op := range ops[:lit] {
+			for _, op := range ops[:maxInt(lit, 0)] {
 				entries = append(entries, mk.keyValue(op.K), mk.valValue(op.V))
 				tr.Events = append(tr.Events, MapEvent{"ev": "set", "k": op.K, "v": op.V})
 			}
 			h := &hostMap{mk: mk, nk: nk, m: goat.NewMap(mk.goatKeyType(), mk.goatValType(), entries)}
+			if lit < 0 {
+				// a nil map declared by a script, handed to the host: the operations before the first set run on it
+				vm := goat.New()
+				rets, err := vm.Eval(nil, "n.go", fmt.Sprintf("var m map[%s]%s; m", mk.keyType(), mk.valType()))
+				if err != nil || len(rets) != 1 {
+					panic(fmt.Sprintf("cannot obtain a nil map: %v", err))
+				}
+				k := 0
+				for k < len(ops) && ops[k].Op != "set" && ops[k].Op != "range" {
+					k++
+				}
+				interpretMapOps(&hostMap{mk: mk, nk: nk, m: rets[0]}, ops[:k], 0, 0, &tr.Events)
+				interpretMapOps(h, ops[k:], 0, 0, &tr.Events)
+				return
+			}
 			interpretMapOps(h, ops[lit:], 0, 0, &tr.Events)
 		}()
 		if perr != nil {
@@ -770,6 +798,9 @@ func checkC10(c *Ctx) {
 		lit := 0
 		if len(traces)%2 == 1 && source != "go" {
 			lit = litPrefix(ops)
+		}
+		if len(traces)%3 == 0 && source != "go" && lit == 0 {
+			lit = -1 // start from a nil map
 		}
 		tr, err := runMapHistory(source, mk, nk, ops, lit)
 		tr.ID = fmt.Sprintf("%s/%s-%s/%s/%d/lit%d", source, mk.Key, mk.Val, tag, len(traces), lit)
